@@ -283,6 +283,9 @@ func TestGenCases(t *testing.T) {
 		res.Fatal = err.Error()
 	}
 	res.AddExtra("c12_replay_cases_generated", idx)
+	if os.Getenv("VERIF_OUT_GEN") != "" { // run in the same `go test` invocation as TestRecord: own result file
+		t.Setenv("VERIF_OUT", os.Getenv("VERIF_OUT_GEN"))
+	}
 	res.Write(t)
 }
 
